@@ -1,4 +1,4 @@
-;; needs: cmp
+;; needs: base
 ; deep well-formedness of BSON values (only supported types, all the way down) and a size measure
 (declare-fun wfVal (Val) Bool)
 (declare-fun size (Val) Int)
